@@ -38,7 +38,7 @@ def run(ck):
                'x {admitted, queued behind a flush holding the gate} x 2 late-call sets, all release schedules up to a cap then '
                'random ones; non-trivial = a distinct observation in which the call was dropped mid-flight or at least one '
                'call was pending when the transition began')
-    ck.translate()
+    ck.translate(only=['gen_lifecycle'])
     import vlib
     gate_src = vlib.strip_coq_comments(open(vlib.COQ + '/Common/Gate.v').read())
     ck.ob('no Admitted/Axiom/... in Common/Gate.v', not vlib.FORBIDDEN.search(gate_src), 'hygiene')
